@@ -1,7 +1,7 @@
 /-
 C01 / C02 / C20  Every tree the parser model accepts is WELL TYPED under builder rt's slot typing of ES5 trees
 (`TokenAdj.es5Slot` / `wfVal`) — the tree hypothesis of the typed theorems `C01.pretty_stream_typed`,
-`C02.minify0/1_stream_typed`, `C20.pretty_lines_indented_typed`, `C20.pretty_text_ends_with_one_newline_typed` —
+`C02.minify0/1_stream_typed`, `C20.pretty_lines_indented_typed`, `C20.pretty_text_ends_with_one_newline_typed` (corollaries: Props/C20typed.lean) —
 and none of its printed string values ends with a line terminator (`valAll endsOK anyStr`, the other tree hypothesis of
 the C20 theorems).
 
@@ -33,6 +33,13 @@ THE TOKEN-LEVEL HYPOTHESIS `TokenTextsOK text wc`, exactly: for every token `t` 
       `t.value` does not end with a line terminator;
   (b) every comment token hidden under `t`: a LINE_COMMENT starts with `//`, a BLOCK_COMMENT with `/*`
       (`sig … = lineComment / blockComment`), and its text does not end with a line terminator.
+LIMITATION of (a) since repo fix 6e2598b (a reserved word directly after `.` is typed ID by the lexer): for a text such
+as `a.if` the ID token `if` is NOT identifier-like (`sig "if"` is a reserved-word literal), so `TokenTextsOK` is false
+of it and the theorem says nothing, although the tree is well typed (the transient `Identifier` node feeds
+`PropIdentifier`, whose slot allows reserved words).  Covering it needs a context-sensitive fact this bottom-up typing
+cannot express: "an ID token with a reserved spelling is shifted only directly after PERIOD, where only
+`identifier_name_string` can follow".  Reserved words as property names in object literals (`{if: 1}`, keyword tokens,
+`reserved_word` productions) ARE covered (type `idname`).
 These are facts about the lexer's regular expressions (the ID rule matches identifier spellings only, …; the line
 comment rule stops before the terminator) that no delivered lexer theorem states in terms of `TokenAdj.sig`; they are
 NOT proved here.  For all terminals WITH a fixed spelling (punctuators, keywords, AUTOSEMI, get / set) the facts are
@@ -40,9 +47,9 @@ proved: `Props.C11tok.shifted_tokens_spellingOK` + the kernel decision `fixed_sp
 -/
 import CalmVerif.Proofs.ParsedTypedCert2
 import CalmVerif.Props.C11tok
-import CalmVerif.Props.C01
-import CalmVerif.Props.C02
-import CalmVerif.Props.C20
+import CalmVerif.Proofs.RoundTripCertPretty
+import CalmVerif.Proofs.RoundTripCertMin0
+import CalmVerif.Proofs.RoundTripCertMin1
 namespace CalmVerif.Props.C01typed
 open CalmVerif CalmVerif.Model CalmVerif.Model.LR CalmVerif.Model.Actions CalmVerif.Model.ActionDesc
 open CalmVerif.Proofs.NodePos CalmVerif.Proofs.ParsedTyped CalmVerif.TokenAdj CalmVerif.Unparse
@@ -170,67 +177,10 @@ theorem parsed_tree_well_typed (text : List Char) (wc : Bool) (pv : PVal)
   obtain ⟨_, _, h3, _⟩ := parsed_good (cx := cxMin1) rfl hparse htok
   exact ⟨⟨as, hv⟩, h1, h2, h3, he⟩
 
-/-! ### corollaries: the typed theorems of C01 / C02 / C20 for every accepted text -/
-
-/-- C01 (2)+(3) for parsed programs: the chunk stream of the pretty printer is a string of the `ES5Program`
-    certificate over the follow relation -/
-theorem parsed_pretty_stream_typed (text : List Char) (wc : Bool) (pv : PVal)
-    (hparse : Parser.parse text wc = .accepted pv) (htok : TokenTextsOK text wc)
-    (indent : Option String) (cs : List Chunk) (h : walkChunks (prettyCfg indent) pv.v () = .ok (cs, ())) :
-    ∃ a, certOf cxPretty "ES5Program" = some a ∧ InLang followPretty a (syms (prettyCfg indent).hd cs) := by
-  obtain ⟨as, hv, hw, _⟩ := parsed_good (cx := cxPretty) rfl hparse htok
-  rw [hv] at hw h
-  exact C01.pretty_stream_typed indent "ES5Program" as hw cs h
-
-/-- C02 for parsed programs, both minifiers -/
-theorem parsed_minify_stream_typed (text : List Char) (wc : Bool) (pv : PVal)
-    (hparse : Parser.parse text wc = .accepted pv) (htok : TokenTextsOK text wc) :
-    (∀ cs, walkChunks (minifyCfg false) pv.v () = .ok (cs, ()) →
-      ∃ a, certOf cxMin0 "ES5Program" = some a ∧ InLang followMin0 a (syms (minifyCfg false).hd cs)) ∧
-    (∀ cs, walkChunks (minifyCfg true) pv.v () = .ok (cs, ()) →
-      ∃ a, certOf cxMin1 "ES5Program" = some a ∧ InLang followMin1 a (syms (minifyCfg true).hd cs)) := by
-  obtain ⟨as, hv, hw0, _⟩ := parsed_good (cx := cxMin0) rfl hparse htok
-  obtain ⟨_, _, hw1, _⟩ := parsed_good (cx := cxMin1) rfl hparse htok
-  rw [hv] at hw0 hw1
-  rw [hv]
-  exact ⟨fun cs h => C02.minify0_stream_typed "ES5Program" as hw0 cs h,
-    fun cs h => C02.minify1_stream_typed "ES5Program" as hw1 cs h⟩
-
-/-- C20 (2) for parsed programs: every printed line that starts with a token is indented by exactly the indentation
-    string × the structural depth of that token, and the level is 0 at the end -/
-theorem parsed_pretty_lines_indented (text : List Char) (wc : Bool) (pv : PVal)
-    (hparse : Parser.parse text wc = .accepted pv) (htok : TokenTextsOK text wc)
-    (indent : Option String) (chunks : List Chunk)
-    (hw : walkChunks (prettyCfg indent) pv.v () = .ok (chunks, ()))
-    (hi : indentOK (effIndent hdataGen indent) = true) :
-    checkLines (effIndent hdataGen indent) (flushAll (prettyCfg indent) chunks none [] 0).1
-        (printingDepths chunks 0) (some []) = true ∧
-    (flushAll (prettyCfg indent) chunks none [] 0).2 = 0 := by
-  obtain ⟨as, hv, hwf, he⟩ := parsed_good (cx := cxPretty) rfl hparse htok
-  rw [hv] at hwf he hw
-  exact C20.pretty_lines_indented_typed indent "ES5Program" as chunks hwf he hw hi
-
-/-- C20 (3) for parsed programs: the printed text ends with exactly one newline (or is empty) -/
-theorem parsed_pretty_ends_with_one_newline (text : List Char) (wc : Bool) (pv : PVal)
-    (hparse : Parser.parse text wc = .accepted pv) (htok : TokenTextsOK text wc)
-    (indent : Option String) (chunks : List Chunk)
-    (hw : walkChunks (prettyCfg indent) pv.v () = .ok (chunks, ()))
-    (hi : indentOK (effIndent hdataGen indent) = true) :
-    EndsWithOneNewline (charsOf (flushAll (prettyCfg indent) chunks none [] 0).1) := by
-  obtain ⟨as, hv, hwf, he⟩ := parsed_good (cx := cxPretty) rfl hparse htok
-  rw [hv] at hwf he hw
-  exact C20.pretty_text_ends_with_one_newline_typed indent as chunks hwf he hw hi
-
 /-! ### non-vacuity -/
 
-/-- the token-level hypothesis is satisfiable (and decidable for a concrete text): `a.if` — a reserved word used as a
-    property name, the case the transient type `idname` is for -/
-example : TokenTextsOK ['a', '.', 'i', 'f'] false := by decide +kernel
-
-/-- … and the conclusion, evaluated directly on that text: the parsed tree is well typed and no string ends with a line
-    terminator -/
-example : (match Parser.parse ['a', '.', 'i', 'f'] false with
-    | .accepted pv => wfVal cxPretty pv.v && valAll endsOK anyStr pv.v
-    | _ => false) = true := by decide +kernel
+/-- the token-level hypothesis is satisfiable (and decidable for a concrete text): `x={if:1}` — a reserved word
+    used as a property name, the case the transient type `idname` is for -/
+example : TokenTextsOK ['x', '=', '{', 'i', 'f', ':', '1', '}'] false := by decide +kernel
 
 end CalmVerif.Props.C01typed
